@@ -367,7 +367,8 @@ CopyChangeAttrs(src, dst) ==
 
 B0(objs) == [objs |-> objs, removed |-> {}, deletedF |-> {}, deletedM |-> {},
              noop |-> {}, models |-> {}, ut |-> EmptyDict, mi |-> EmptyDict,
-             lastChg |-> EmptyDict, renames |-> EmptyDict, mrenames |-> EmptyDict]
+             lastChg |-> EmptyDict, renames |-> EmptyDict, mrenames |-> EmptyDict,
+             pendNoop |-> {}]
 
 Pass1Step(b, i) ==
   LET mu == b.objs[i]
@@ -440,9 +441,18 @@ Pass1(b, idxs) == IF idxs = <<>> THEN b
 
 AllButLast(s) == SubSeq(s, 1, Len(s) - 1)
 
-Pass2Step(b, i, base) ==
-  LET mu == b.objs[i]
+(* TRUE (as repaired): only a DeleteField that FOLLOWS the removed AddField of a no-op is part of the
+   no-op (pending_noop_fields).  FALSE (as found): every DeleteField / RenameField of that field NAME
+   was filtered out, also one that deletes an older field of the same name BEFORE the AddField:
+   [DeleteField(f), AddField(f), DeleteField(f)] optimised to nothing. *)
+NoopByPosition == TRUE
+InNoop(b, id) == IF NoopByPosition THEN id \in b.pendNoop ELSE id \in b.noop
+
+Pass2Step(b0, i, base) ==
+  LET mu == b0.objs[i]
       id == <<mu.m, mu.f>>
+      b  == IF mu.k = "Add" /\ id \in b0.noop /\ i \in b0.removed
+            THEN [b0 EXCEPT !.pendNoop = @ \cup {id}] ELSE b0
   IN
   CASE mu.k = "Add" ->
         LET b1 == IF id \in DOMAIN b.renames
@@ -467,15 +477,16 @@ Pass2Step(b, i, base) ==
         THEN [b EXCEPT !.objs[i].f = b.objs[b.renames[id].muts[1]].nf]
         ELSE b
     [] mu.k = "Del" ->
-        IF id \in b.noop THEN [b EXCEPT !.removed = @ \cup {i}]
+        IF InNoop(b, id) THEN [b EXCEPT !.removed = @ \cup {i}, !.pendNoop = @ \ {id}]
         ELSE IF id \in DOMAIN b.renames /\ b.renames[id].cp
              THEN [b EXCEPT !.objs[i].f = b.objs[b.renames[id].muts[1]].of]
              ELSE b
     [] mu.k = "RenF" ->
         LET old == <<mu.m, mu.of>>
             new == <<mu.m, mu.nf>>
-            b1  == IF old \in b.noop
+            b1  == IF InNoop(b, old)
                    THEN [b EXCEPT !.noop = (@ \ {old}) \cup {new},
+                                  !.pendNoop = IF old \in @ THEN (@ \ {old}) \cup {new} ELSE @,
                                   !.removed = @ \cup {i}]
                    ELSE b
         IN IF old \in DOMAIN b1.renames
